@@ -42,6 +42,7 @@ Sweep: C13.1 a container is started xor handed to clean-up; C13.2 the hand-over 
 Fifth round: C13.1 neither gen_uniqueid nor eventfile_unique_name carries a memoising decorator (the same path names another generation after an eviction).
 Sixth round: C13.6 only the owner modules write running / cleanup links (whole-package clause, now part of every run).
 Seventh round: C13.5 an event popped from the queue reaches the dispatch on its kind on every path (the limit is tested before the pop); the manager starts idle and is activated only by the first synchronisation.
+Eighth round: C13.2 the clean-up service removes the clean-up link last (no finish() reachable after the removal); C13.5 an activation is followed by a synchronisation on every path, also when the cache is empty.
 Does NOT decide interleavings of events with clean-up completion.
 """
 
